@@ -1,6 +1,8 @@
 SPECIFICATION Spec
 CONSTANTS
-  CsvFallsThrough = TRUE
+  RoutingKeysLast = TRUE
+  ReplicaUsesRowDb = TRUE
+  CsvFallsThrough = FALSE
   MaxDecoys = 2
   AllPairs = FALSE
   Emit = TRUE
